@@ -121,6 +121,16 @@ CHECKS = [
            'port, facility and switch with a rejected inner step, links with a ghost interface at each position) plus every ordinary '
            'event that happens to raise; whenever the call raised the full model snapshot must equal the snapshot before the call.',
       note='Exception class is not constrained. Calls that unexpectedly succeed are judged by C07, not here.'),
+ dict(property_id='C10', engine='E2-enum', level='exploration',
+      technique='model checking: exhaustive enumeration of the slice parameter product, each slice built through the real API, two-sided oracle over a pinned constraint table',
+      text='15 service types x 0-4 connected interfaces x 1/2/3-site placement x five interface-kind patterns x declared site (unset / '
+           'matching / other) x seven constrained-property settings x two construction modes (constructor list | connect_interface '
+           'afterwards) - 7k slices quick (declared site and properties toggled one at a time), ~36k thorough (jointly) - are built '
+           'with the real topology API and validated; accept/reject is compared with a predicate over a copy of ServiceConstraints / '
+           'NodeConstraints pinned in the checker (any drift between the copy and the library table is reported); after acceptance '
+           'the inferred site must be recorded; the at-once guardrail must fire exactly for SharedPort on L2PTP. Node types x '
+           '(plain, site unset, image, management ip, component) and port-mirror services get the same treatment.',
+      note='For types without a site limit the declared-site agreement is unspecified; num_instances has no decidable case (all NO_LIMIT).'),
 ]
 _claimed = {c['property_id'] for c in CHECKS}
 NOT_APPLICABLE = [dict(property_id=p, reason='check not built yet in this revision (work in progress; model checking applies, see DESIGN.md)')
